@@ -95,6 +95,18 @@ def run(ctx):
             if ta != tm:
                 j = next((j for j in range(min(len(ta), len(tm))) if ta[j] != tm[j]), min(len(ta), len(tm)))
                 ctx.disagree("cops", lines[i][:400], "op %d: %s" % (j, str(tm[j:j + 1])[:300]), "op %d: %s" % (j, str(ta[j:j + 1])[:300]))
+        # layer CL: the LITERAL compressor model (Qco.CompLit over the word-level BitWriter, proved to refine the abstract
+        # one in C09l) on the same histories; its training oracle answers the observed prefix list as it stands
+        for i, m in zip(midx, C.driver(["l" + ml for ml in mlines])):
+            ctx.count("literal-model-compared")
+            ta, tm = D.split_tokens(ans[i]), D.split_tokens(m)
+            ta = [("ok meta ?", k) if (b.startswith("ok meta") and hist[i][4][j] == "E") else (b, k) for j, (b, k) in enumerate(ta)]
+            if m in ("timeout", "died"):
+                continue
+            if ta != tm:
+                j = next((j for j in range(min(len(ta), len(tm))) if ta[j] != tm[j]), min(len(ta), len(tm)))
+                ctx.disagree("lcops", lines[i][:400], "op %d: %s" % (j, str(tm[j:j + 1])[:300]), "op %d: %s" % (j, str(ta[j:j + 1])[:300]),
+                             "literal Compressor model (layer CL) differs from the real Compressor")
     dec_lines, dec_info = [], []
     for (dt, lv, od, g, ops), line, a in zip(hist, lines, ans):
         toks = D.split_tokens(a)
